@@ -15,4 +15,6 @@ echo "tests: $T"
 echo "$T" | grep -q "539 passed\|54[0-3] passed" || { echo "unexpected test result; reverting"; git checkout -q -- .; git clean -fdq -e '*.so'; exit 1; }
 git add -A . && git commit -qF $M && H=$(git rev-parse --short HEAD) && echo "committed $H"
 sed -i "s/property=$FP PENDING-$N /property=$FP $H /" /verif/known_findings.txt
-grep -n "property=$FP $H" /verif/known_findings.txt | cut -c1-120
+# lines filed under another property that name this patch explicitly: "property=Cyy PENDING-n (patch Cxx-n) ..."
+sed -i "s/property=\(C[0-9]*\) PENDING-$N (patch $P-$N)/property=\1 $H (patch $P-$N)/" /verif/known_findings.txt
+grep -n "property=C[0-9]* $H" /verif/known_findings.txt | cut -c1-120
